@@ -574,6 +574,9 @@ func (v *FV) epochGet(e *Epoch, name string) Term {
 	case 0:
 		t = fmt.Sprintf("%s@%d", name, e.id)
 		v.emit(fmt.Sprintf("(declare-const %s %s)", t, v.arrSort(name)))
+		if e.initial && v.arrSort(name) == "(Array Int Slice)" {
+			v.emit(fmt.Sprintf("(assert (forall ((r Int)) (! (=> (<= r N0!) (<= (sl_arr (select %s r)) N0!)) :pattern ((select %s r)))))", t, t))
+		}
 		if e.initial && v.refArrays[name] {
 			// well-formed initial heap: references stored in it existed before the call
 			switch {
@@ -848,4 +851,42 @@ func storedInBlocks(a ssa.Value, blocks map[*ssa.BasicBlock]bool) bool {
 		}
 	}
 	return false
+}
+
+// sliceElem: the term for element i of slice s in heap array version h (element array of
+// sort es). In math mode reads go through a view function with a trigger-friendly axiom
+// (E-matching on "offset + i" is unreliable for linear arithmetic).
+func (v *FV) sliceElem(h Term, es string, s Term, i Term) Term {
+	if v.mode != ModeMath {
+		return fmt.Sprintf("(select (select %s (sl_arr %s)) %s)", h, s, v.iadd(fmt.Sprintf("(sl_off %s)", s), i))
+	}
+	fn := "sl_view_" + mangle(es)
+	v.declSlice()
+	v.pre("fn "+fn, fmt.Sprintf("(declare-fun %s ((Array Int (Array Int %s)) Slice) (Array Int %s))", fn, es, es))
+	v.pre("fnax "+fn, fmt.Sprintf("(assert (forall ((e (Array Int (Array Int %s))) (s Slice) (i Int)) (! (= (select (%s e s) i) (select (select e (sl_arr s)) (+ (sl_off s) i))) :pattern ((select (%s e s) i)))))", es, fn, fn))
+	return fmt.Sprintf("(select (%s %s %s) %s)", fn, h, s, i)
+}
+
+// preexistFacts: references inside a value that existed before the call are pre-existing objects.
+func (v *FV) preexistFacts(t Term, ty types.Type) Term {
+	ty = types.Unalias(ty)
+	switch u := ty.Underlying().(type) {
+	case *types.Slice:
+		return fmt.Sprintf("(<= (sl_arr %s) %s)", t, v.n0)
+	case *types.Struct:
+		var fs []string
+		for i := 0; i < u.NumFields(); i++ {
+			f := v.preexistFacts(fmt.Sprintf("(%s %s)", v.structSel(ty, i), t), u.Field(i).Type())
+			if f != "true" {
+				fs = append(fs, f)
+			}
+		}
+		if len(fs) == 0 {
+			return "true"
+		}
+		return "(and " + strings.Join(fs, " ") + ")"
+	case *types.Pointer, *types.Map, *types.Interface, *types.Signature, *types.Chan:
+		return fmt.Sprintf("(<= %s %s)", t, v.n0)
+	}
+	return "true"
 }
